@@ -1,4 +1,4 @@
-import GnoVerif.Proofs.C20Zero
+import GnoVerif.Proofs.C20Any
 /-! The round trip of the reflection codec model on the proved fragment (C20). -/
 namespace GnoVerif.C20
 
@@ -250,7 +250,7 @@ theorem rt_packed (env : Env) (d : Nat) (e : TD) (he : isPrimTD e = true) : ∀ 
 theorem blElem_enc_is_bytes {env : Env} {d : Nat} {ptr : Bool} {e : TD} {v : Val} {one : Bytes}
     (hok : listElemOK env ptr e = true) (ht3 : typ3 env e = .blen) (hwv : wf env d e v = true)
     (henc : enc env e v 1 false false = .ok one) : ∃ X, one = encBytes X := by
-  rcases wf_cases hwv with ⟨hpv, hprim⟩ | ⟨vs', rfl⟩ | ⟨es, rfl⟩
+  rcases wf_cases hwv with ⟨hpv, hprim⟩ | ⟨vs', rfl⟩ | ⟨es, rfl⟩ | ⟨rfl, id, rfl⟩ | ⟨nm, cv, id, rfl, rfl⟩
   · rw [enc_primVal hpv] at henc
     cases e <;> cases v <;> simp only [primOK, Bool.false_eq_true] at hprim
     all_goals first
@@ -270,7 +270,17 @@ theorem blElem_enc_is_bytes {env : Env} {d : Nat} {ptr : Bool} {e : TD} {v : Val
   · obtain ⟨ptr', e', htd, _, _⟩ := wf_list_inv hwv
     unfold listElemOK at hok
     rw [htd] at hok
-    simp [isPackedElem, isBLElemPrim, isRefTD] at hok
+    simp [isPackedElem, isBLElemPrim, isRefTD, isIfaceTD] at hok
+  · simp only [enc, pure, Except.pure, Except.ok.injEq, writeMaybeBare_false] at henc
+    exact ⟨[], henc.symm⟩
+  · obtain ⟨_, n, ifs, fs, rs, _, hfind, _, _, _⟩ := wf_any_inv hwv
+    rw [enc_any env id nm n ifs fs rs cv 1 false false hfind] at henc
+    cases h2 : enc env (.ref nm) cv 1 true false with
+    | error x => rw [h2] at henc; cases henc
+    | ok buf2 =>
+      rw [h2] at henc
+      simp only [bind, Except.bind, pure, Except.pure, Except.ok.injEq, writeMaybeBare_false] at henc
+      exact ⟨_, henc.symm⟩
 
 /-- the next field's key (or the end) stops an unpacked list. -/
 def stopsList (fnum : Nat) (more : Bytes) : Prop :=
@@ -291,15 +301,19 @@ theorem decUnpacked_stop (env : Env) (k : Nat) (e : TD) (ptr ne impl : Bool) (fn
 theorem listElem_unpacked_facts {env : Env} {ptr : Bool} {e : TD} (hok : listElemOK env ptr e = true)
     (ht3 : typ3 env e = .blen) :
     isByteElem env e = false ∧ writeImplicit env e = false ∧
-      ((isBLElemPrim e = true ∧ ptr = false ∧ isStructKind env e = false) ∨
+      ((ptr = false ∧ isStructKind env e = false ∧ (isBLElemPrim e = true ∨ isIfaceTD e = true)) ∨
        (isRefTD e = true ∧ isStructKind env e = true)) := by
   unfold listElemOK at hok
   simp only [Bool.or_eq_true, Bool.and_eq_true, Bool.not_eq_true'] at hok
-  rcases hok with ⟨hpe | hble, hptr⟩ | ⟨hr, hs⟩
+  rcases hok with ⟨(hpe | hble) | hif, hptr⟩ | ⟨hr, hs⟩
   · obtain ⟨_, hne, _⟩ := packedElem_facts (env := env) hpe
     simp [ht3] at hne
   · obtain ⟨_, _, hbe, hwi, hsk⟩ := blElem_facts (env := env) hble
-    exact ⟨hbe, hwi, Or.inl ⟨hble, hptr, hsk⟩⟩
+    exact ⟨hbe, hwi, Or.inl ⟨hptr, hsk, Or.inl hble⟩⟩
+  · cases hte : e <;> simp [hte, isIfaceTD] at hif
+    rename_i id
+    obtain ⟨_, hbe, hwi, hsk, _⟩ := ifaceElem_facts env id
+    exact ⟨hbe, hwi, Or.inl ⟨hptr, hsk, Or.inr rfl⟩⟩
   · cases hte : e <;> simp [hte, isRefTD] at hr
     rename_i name
     rw [hte] at hs
@@ -308,11 +322,34 @@ theorem listElem_unpacked_facts {env : Env} {ptr : Bool} {e : TD} (hok : listEle
     obtain ⟨_, hbe, hwi⟩ := refElem_facts hs'
     exact ⟨hbe, hwi, Or.inr ⟨rfl, hs⟩⟩
 
+theorem writeMaybeBare_true' (buf : Bytes) : writeMaybeBare buf true = buf := by
+  unfold writeMaybeBare
+  cases buf <;> simp
+
+theorem enc_nil (env : Env) (id : Bytes) (fnum : Nat) (bare bo : Bool) :
+    enc env (.iface id) .nil fnum bare bo = .ok (writeMaybeBare [] bare) := by
+  simp only [enc, pure, Except.pure]
+
+theorem dec_iface (env : Env) (k : Nat) (id : Bytes) (bz : Bytes) (fnum : Nat) (bare bo : Bool) (depth : Nat) :
+    dec env (k + 1) (.iface id) bz fnum bare bo depth = decIface env k id bz bare (depth + 1) := by
+  unfold dec
+  simp only [decPrim]
+
+/-- a struct's field bytes are never the single byte 0x00. -/
+theorem encFields_ne_zero {env : Env} {d : Nat} {fs : List FieldD} {vs : List Val} {buf : Bytes}
+    (hw : wfFields env d fs vs = true) (hs : fieldsSorted 0 fs = true) (h : encFields env fs vs = .ok buf) :
+    buf ≠ [0] := by
+  intro hb
+  subst hb
+  obtain ⟨num, t, kn, hk, _⟩ := head_key env vs d fs 0 [0] hw hs h (by simp)
+  simp [decKeyRaw, decUvarint, decUvarintAux] at hk
+
+set_option maxHeartbeats 1600000 in
 mutual
 /-- value level: the non-bare encoding of a fragment value, followed by anything,
 decodes back to the value and reports exactly the encoding's length. -/
 theorem rt_val (env : Env) (hE : envOK env) : ∀ (v : Val) (d : Nat) (td : TD) (bs rest : Bytes) (k fnum depth : Nat),
-    wf env d td v = true → d ≤ env.length + 4 → enc env td v fnum false false = .ok bs →
+    wf env d td v = true → (d ≤ env.length + 4 ∧ depth + d ≤ maxAnyDepth) → enc env td v fnum false false = .ok bs →
     bs.length < 2 ^ 64 → 0 < fnum → fnum < 2 ^ 29 → budget env bs.length ≤ k →
     dec env k td (bs ++ rest) fnum false false depth = some (v, bs.length)
   | .struct vs, d, td, bs, rest, k, fnum, depth, hw, hd, he, hlen, _, _, hk => by
@@ -340,7 +377,7 @@ theorem rt_val (env : Env) (hE : envOK env) : ∀ (v : Val) (d : Nat) (td : TD) 
         have hs : fieldsSorted 0 fs = true := by
           have := hE name _ hfind
           simpa using this
-        have := rt_fields env hE vs d' fs buf k' depth 0 [] 0 hwf (by omega) hs hbuf hbl (by omega)
+        have := rt_fields env hE vs d' fs buf k' depth 0 [] 0 hwf ⟨by omega, by omega⟩ hs hbuf hbl (by omega)
         simp only [this, Option.map]
         simp [encBytes_length]
   | .list vs, d, td, bs, rest, k, fnum, depth, hw, hd, he, hlen, hf0, hf29, hk => by
@@ -360,10 +397,14 @@ theorem rt_val (env : Env) (hE : envOK env) : ∀ (v : Val) (d : Nat) (td : TD) 
         have hpe : isPackedElem e = true := by
           unfold listElemOK at hok
           simp only [Bool.or_eq_true, Bool.and_eq_true, Bool.not_eq_true'] at hok
-          rcases hok with ⟨hpe | hble, _⟩ | ⟨hr, hs⟩
+          rcases hok with ⟨(hpe | hble) | hif, _⟩ | ⟨hr, hs⟩
           · exact hpe
           · obtain ⟨_, ht3, hbe, _⟩ := blElem_facts (env := env) hble
             simp [ht3, hbe] at hpk
+          · cases hte : e <;> simp [hte, isIfaceTD] at hif
+            rename_i id
+            rw [hte] at hpk
+            simp [(ifaceElem_facts env id).1, (ifaceElem_facts env id).2.1] at hpk
           · cases hte : e <;> simp [hte, isRefTD] at hr
             rename_i name
             rw [hte] at hs
@@ -445,15 +486,130 @@ theorem rt_val (env : Env) (hE : envOK env) : ∀ (v : Val) (d : Nat) (td : TD) 
     exact dec_prim' env k (by have := budget_pos env bs'.length; omega) td _ fnum false false depth _ (hdec rest)
   | .t _ _, _, _, _, _, _, _, _, hw, _, _, _, _, _, _ => by simp [wf] at hw
   | .d _, _, _, _, _, _, _, _, hw, _, _, _, _, _, _ => by simp [wf] at hw
-  | .nil, _, _, _, _, _, _, _, hw, _, _, _, _, _, _ => by simp [wf] at hw
-  | .any _ _, _, _, _, _, _, _, _, hw, _, _, _, _, _, _ => by simp [wf] at hw
+  | .nil, d, td, bs, rest, k, fnum, depth, hw, hd, he, _, _, _, hk => by
+    have hdpos := wf_nil_depth hw
+    obtain ⟨id, rfl⟩ := wf_nil_inv hw
+    simp only [enc, pure, Except.pure, Except.ok.injEq, writeMaybeBare_false] at he
+    subst he
+    have hd2 := hd.2
+    cases k with
+    | zero => have := budget_pos env (encBytes []).length; omega
+    | succ k' =>
+      rw [dec_iface]
+      cases k' with
+      | zero =>
+        have h3 : 3 ≤ budget env (encBytes []).length := by
+          unfold budget
+          calc 3 ≤ (sumFields env + 2) * 2 := by omega
+            _ = (sumFields env + 2) * ((encBytes []).length + 1) := by rw [encBytes_nil]; rfl
+        omega
+      | succ k'' =>
+        have hdep : ¬ depth + 1 > maxAnyDepth := by omega
+        rw [encBytes_nil]
+        simp [decIface, hdep, decMaybeBare, decBytes, decUvarint, decUvarintAux, uvarintSize, encUvarint_small]
+  | .any name cv, d, td, bs, rest, k, fnum, depth, hw, hd, he, hlen, _, _, hk => by
+    obtain ⟨id, n, ifs, fs, rs, rfl, hfind, hid, hname, hwc⟩ := wf_any_inv hw
+    have hd1 := hd.1
+    have hd2 := hd.2
+    rcases wf_cases hwc with ⟨hpv, hprim⟩ | ⟨vs, rfl⟩ | ⟨es, rfl⟩ | ⟨rfl, _, h⟩ | ⟨_, _, _, rfl, h⟩
+    · cases cv <;> simp [isPrimVal] at hpv <;> simp [primOK] at hprim
+    rotate_left
+    · obtain ⟨_, _, h, _⟩ := wf_list_inv hwc; cases h
+    · cases h
+    · cases h
+    obtain ⟨name', n', ifs', fs', rs', d', htd, hfind', rfl, hwf⟩ := wf_struct_inv hwc
+    cases htd
+    rw [hfind] at hfind'
+    cases hfind'
+    rw [enc_any env id name n ifs fs rs (.struct vs) fnum false false hfind] at he
+    rw [enc_struct env name n ifs fs rs vs 1 true false hfind] at he
+    cases hbuf : encFields env fs vs with
+    | error x => rw [hbuf] at he; simp [bind, Except.bind] at he
+    | ok buf2 =>
+      rw [hbuf] at he
+      simp only [bind, Except.bind, pure, Except.pure, Except.ok.injEq, writeMaybeBare_true',
+        writeMaybeBare_false] at he
+      subst he
+      have hs : fieldsSorted 0 fs = true := by
+        have := hE name _ hfind
+        simpa using this
+      have hb0 := encFields_ne_zero hwf hs hbuf
+      have hlenE : (anyEnvelope name buf2).length < 2 ^ 64 := by rw [encBytes_length] at hlen; omega
+      have hF := fields_le_sum hfind
+      -- the envelope contains buf2 (when non-empty)
+      have hsub : buf2.length + 3 ≤ (anyEnvelope name buf2).length ∨ buf2 = [] := by
+        by_cases hemp : buf2 = []
+        · exact Or.inr hemp
+        · left
+          have hemp' : buf2.isEmpty = false := by
+            cases buf2 with
+            | nil => exact absurd rfl hemp
+            | cons _ _ => rfl
+          have hb0' : (buf2 == [0]) = false := by simpa using hb0
+          simp only [anyEnvelope, hemp', hb0', Bool.or_false, Bool.false_eq_true, if_false, List.length_append,
+            encBytes_length]
+          have h1 : 1 ≤ (encKey 1 .blen).length := encUvarint_length_pos _
+          have h2 : 1 ≤ (encKey 2 .blen).length := encUvarint_length_pos _
+          have h3 : 1 ≤ uvarintSize buf2.length := encUvarint_length_pos _
+          have h4 : 1 ≤ uvarintSize (47 :: name).length := encUvarint_length_pos _
+          omega
+      have hlen2 : buf2.length < 2 ^ 64 := by
+        rcases hsub with h | h
+        · omega
+        · subst h; norm_num
+      have hsz : 1 ≤ uvarintSize (anyEnvelope name buf2).length := encUvarint_length_pos _
+      cases k with
+      | zero => have := budget_pos env (encBytes (anyEnvelope name buf2)).length; omega
+      | succ k' =>
+        rw [dec_iface]
+        cases k' with
+        | zero =>
+          have h3 : 3 ≤ budget env (encBytes (anyEnvelope name buf2)).length := by
+            unfold budget
+            have : 1 ≤ (encBytes (anyEnvelope name buf2)).length := by rw [encBytes_length]; omega
+            calc 3 ≤ (sumFields env + 2) * 2 := by omega
+              _ ≤ (sumFields env + 2) * ((encBytes (anyEnvelope name buf2)).length + 1) :=
+                Nat.mul_le_mul_left _ (by omega)
+          omega
+        | succ k'' =>
+          apply decIface_envelope env k'' id name n ifs fs rs buf2 rest (depth + 1) (.struct vs) hfind hid hname
+            (by omega) hlenE hlen2 hb0
+          by_cases hemp : buf2 = []
+          · subst hemp
+            simp only [List.isEmpty_nil, if_true]
+            have hz := zero_fields env vs d' fs hwf hbuf (env.length + 3) (by omega)
+            rw [zeroOf, show env.length + 4 = (env.length + 3) + 1 from rfl,
+              zeroVal_ref env (env.length + 3) name n ifs fs rs hfind, ← hz]
+          · have hemp' : buf2.isEmpty = false := by
+              cases buf2 with
+              | nil => exact absurd rfl hemp
+              | cons _ _ => rfl
+            simp only [hemp', Bool.false_eq_true, if_false]
+            have hb3 : buf2.length + 3 ≤ (anyEnvelope name buf2).length := by
+              rcases hsub with h | h
+              · exact h
+              · exact absurd h hemp
+            have hbud : fs.length + 2 + budget env buf2.length ≤ k'' := by
+              have e1 := budget_step env buf2.length
+              have e2 := budget_step env (buf2.length + 1)
+              have e3 : budget env (buf2.length + 1 + 1) ≤ budget env (encBytes (anyEnvelope name buf2)).length :=
+                budget_mono env (by rw [encBytes_length]; omega)
+              omega
+            cases k'' with
+            | zero => omega
+            | succ k3 =>
+              rw [dec_ref env k3 name n ifs fs rs _ 1 true false (depth + 1) hfind]
+              have := rt_fields env hE vs d' fs buf2 k3 (depth + 1) 0 [] 0 hwf ⟨by omega, by omega⟩ hs hbuf hlen2
+                (by omega)
+              simp [decMaybeBare, this]
   | .m _ _, _, _, _, _, _, _, _, hw, _, _, _, _, _, _ => by simp [wf] at hw
 
 /-- unpacked list loop: one `key(fnum) value` per element, until a larger field number
 (or the end of the buffer). -/
 theorem rt_unpacked (env : Env) (hE : envOK env) : ∀ (vs : List Val) (d : Nat) (e : TD) (ptr : Bool) (fnum : Nat)
     (body more : Bytes) (k depth : Nat) (acc : List Val) (n : Nat),
-    listElemOK env ptr e = true → typ3 env e = .blen → wfElems env d e vs = true → d ≤ env.length + 4 →
+    listElemOK env ptr e = true → typ3 env e = .blen → wfElems env d e vs = true →
+    (d ≤ env.length + 4 ∧ depth + d ≤ maxAnyDepth) →
     encUnpacked env e ptr false (writeImplicit env e) fnum vs = .ok body → stopsList fnum more →
     0 < fnum → fnum < 2 ^ 29 → body.length < 2 ^ 64 → budget env body.length ≤ k →
     decUnpacked env k e ptr false (writeImplicit env e) fnum (body ++ more) depth acc n =
@@ -519,39 +675,46 @@ theorem rt_unpacked (env : Env) (hE : envOK env) : ∀ (vs : List Val) (d : Nat)
           by_cases hdef : isDefault env e v = true
           · -- default element (an empty string / byte slice): the single byte 0x00
             simp only [hdef, if_true] at h1
-            rcases hkind with ⟨hble, hptr, hsk⟩ | ⟨hr, hs⟩
+            rcases hkind with ⟨hptr, hsk, hbi⟩ | ⟨hr, hs⟩
             · subst hptr
               simp only [hsk, Bool.false_and, Bool.false_eq_true, if_false, pure, Except.pure,
                 Except.ok.injEq] at h1
               subst h1
-              obtain ⟨hprimTD, _⟩ := blElem_facts (env := env) hble
-              rcases wf_cases hwv with ⟨hpv, hprim⟩ | ⟨vs', rfl⟩ | ⟨es, rfl⟩
-              · obtain ⟨bs', hbs', _, _⟩ := prim_roundtrip e v hprim
-                have hz := prim_omitted_zero env e v hprim bs' hbs' (Or.inl hdef) (env.length + 4)
-                have hdv : defaultSlot env false e = v := by
-                  have htime : ¬ e = TD.time := by cases e <;> simp [isBLElemPrim] at hble ⊢
+              have hdv : defaultSlot env false e = v := by
+                rcases wf_cases hwv with ⟨hpv, hprim⟩ | ⟨vs', rfl⟩ | ⟨es, rfl⟩ | ⟨rfl, id, rfl⟩ | ⟨_, _, id, rfl, rfl⟩
+                · obtain ⟨bs', hbs', _, _⟩ := prim_roundtrip e v hprim
+                  have hz := prim_omitted_zero env e v hprim bs' hbs' (Or.inl hdef) (env.length + 4)
+                  have htime : ¬ e = TD.time := by
+                    have := primOK_isPrimTD hprim
+                    cases e <;> simp [isPrimTD] at this ⊢
                   simp [defaultSlot, htime, zeroOf, ← hz]
-                have ih := ihrec (n + (encKey fnum .blen).length + 1)
-                rw [reverse_cons_append] at ih
-                simp only [decUnpacked, hne, Bool.false_eq_true, if_false, hkey, Nat.lt_irrefl, hcode,
-                  List.drop_left, List.singleton_append, List.cons_append, headZero, hsk, Bool.and_false,
-                  Bool.not_false, Bool.or_false, Bool.and_true, beq_self_eq_true, if_true,
-                  ne_eq, not_true_eq_false, hdv, List.drop_succ_cons, List.drop_zero]
-                simp only [hwi, List.nil_append]
-                rw [ih]
-                simp only [List.length_append, List.length_cons, List.length_nil, Option.some.injEq, Prod.mk.injEq,
-                  true_and]
-                omega
-              · simp [isDefault, isDefaultVal] at hdef
-              · obtain ⟨_, e', htd, _⟩ := wf_list_inv hwv
-                rw [htd] at hble; cases hble
+                · simp [isDefault, isDefaultVal] at hdef
+                · obtain ⟨_, e', htd, _⟩ := wf_list_inv hwv
+                  rw [htd] at hbi
+                  simp [isBLElemPrim, isIfaceTD] at hbi
+                · rfl
+                · simp [isDefault, isDefaultVal] at hdef
+              have ih := ihrec (n + (encKey fnum .blen).length + 1)
+              rw [reverse_cons_append] at ih
+              simp only [decUnpacked, hne, Bool.false_eq_true, if_false, hkey, Nat.lt_irrefl, hcode,
+                List.drop_left, List.singleton_append, List.cons_append, headZero, hsk, Bool.and_false,
+                Bool.not_false, Bool.or_false, Bool.and_true, beq_self_eq_true, if_true,
+                ne_eq, not_true_eq_false, hdv, List.drop_succ_cons, List.drop_zero]
+              simp only [hwi, List.nil_append]
+              rw [ih]
+              simp only [List.length_append, List.length_cons, List.length_nil, Option.some.injEq, Prod.mk.injEq,
+                true_and]
+              omega
             · -- struct elements are never default
-              rcases wf_cases hwv with ⟨_, hprim⟩ | ⟨vs', rfl⟩ | ⟨es, rfl⟩
+              exfalso
+              rcases wf_cases hwv with ⟨_, hprim⟩ | ⟨vs', rfl⟩ | ⟨es, rfl⟩ | ⟨_, id, htd⟩ | ⟨_, _, id, _, htd⟩
               · have := primOK_isPrimTD hprim
                 cases hte : e <;> simp [hte, isRefTD, isPrimTD] at hr this
               · simp [isDefault, isDefaultVal] at hdef
               · obtain ⟨_, e', htd, _⟩ := wf_list_inv hwv
                 rw [htd] at hr; cases hr
+              · rw [htd] at hr; cases hr
+              · rw [htd] at hr; cases hr
           · -- non-default element: its non-bare encoding
             simp only [hdef, Bool.false_eq_true, if_false] at h1
             obtain ⟨X, hX⟩ := blElem_enc_is_bytes hok ht3 hwv h1
@@ -600,13 +763,14 @@ theorem rt_unpacked (env : Env) (hE : envOK env) : ∀ (vs : List Val) (d : Nat)
               omega
             · -- a non-pointer element encoded as 0x00: the decoder supplies the default, which it equals
               subst h0
-              have hz := zero_val env v d e [0] 1 hwv h1 (Or.inr rfl) (by norm_num) (env.length + 4) hd
+              have hz := zero_val env v d e [0] 1 hwv h1 (Or.inr rfl) (by norm_num) (env.length + 4) hd.1
               have hptrF : ptr = false ∨ isStructKind env e = false := by
                 cases ptr <;> simp_all
               have hdv : defaultSlot env ptr e = v := by
                 have htime : ¬ e = TD.time := by
-                  rcases hkind with ⟨hble, _, _⟩ | ⟨hr, _⟩
+                  rcases hkind with ⟨_, _, hble | hif⟩ | ⟨hr, _⟩
                   · cases e <;> simp [isBLElemPrim] at hble ⊢
+                  · cases e <;> simp [isIfaceTD] at hif ⊢
                   · cases e <;> simp [isRefTD] at hr ⊢
                 have hcond : (ptr && isStructKind env e) = false := hnsp
                 simp only [defaultSlot, htime, beq_iff_eq, if_false, hcond, Bool.false_eq_true, zeroOf]
@@ -626,7 +790,7 @@ theorem rt_unpacked (env : Env) (hE : envOK env) : ∀ (vs : List Val) (d : Nat)
 /-- field loop: the concatenated field encodings decode back to the field values. -/
 theorem rt_fields (env : Env) (hE : envOK env) : ∀ (vs : List Val) (d : Nat) (fs : List FieldD) (bs : Bytes)
     (k depth last : Nat) (acc : List Val) (n : Nat),
-    wfFields env d fs vs = true → d ≤ env.length + 4 → fieldsSorted last fs = true →
+    wfFields env d fs vs = true → (d ≤ env.length + 4 ∧ depth + d ≤ maxAnyDepth) → fieldsSorted last fs = true →
     encFields env fs vs = .ok bs → bs.length < 2 ^ 64 → fs.length + 1 + budget env bs.length ≤ k →
     decFields env k fs bs last depth acc n = some (acc.reverse ++ vs, n + bs.length)
   | [], d, fs, bs, k, depth, last, acc, n, hw, _, _, he, _, hk => by
@@ -666,7 +830,7 @@ theorem rt_fields (env : Env) (hE : envOK env) : ∀ (vs : List Val) (d : Nat) (
             | succ k' =>
               rcases fieldEnc_shape hone with rfl | ⟨value, henc, rfl⟩
               · -- the field is omitted: the decoder supplies its default
-                have hz := omitted_field_zero env d f fs v vs hw hone (env.length + 4) hd
+                have hz := omitted_field_zero env d f fs v vs hw hone (env.length + 4) hd.1
                 have hdf := defaultSlot_eq_zeroSlot env d f fs v vs hw
                 have hdv : defaultSlot env f.ptr f.td = v := by rw [hdf, ← hz]
                 simp only [List.nil_append, List.length_nil, Nat.zero_add] at hk ⊢
@@ -716,7 +880,30 @@ theorem rt_fields (env : Env) (hE : envOK env) : ∀ (vs : List Val) (d : Nat) (
                 -- (the value encoder ignores the repeated-field number for non-list values; for a
                 -- packed list it is unused as well) — we decode with fnum = 0 as the struct decoder does
                 have hval : dec env k' f.td (value ++ more) 0 false false depth = some (v, value.length) := by
-                  rcases wf_cases hwv with ⟨hpv, hprim⟩ | ⟨vs', rfl⟩ | ⟨es, rfl⟩
+                  rcases wf_cases hwv with ⟨hpv, hprim⟩ | ⟨vs', rfl⟩ | ⟨es, rfl⟩ | ⟨hvnil, id, htd⟩ | ⟨nm, cv, id, hvany, htd⟩
+                  rotate_left 3
+                  · -- nil interface (never actually present on the wire as a field, but decodes fine)
+                    have e1 : enc env f.td v 1 false false = .ok value := by
+                      rw [htd, hvnil] at henc ⊢; rw [enc_nil] at henc ⊢; exact henc
+                    have := rt_val env hE v d f.td value more k' 1 depth hwv hd e1 (by omega)
+                      (by norm_num) (by norm_num) (by omega)
+                    rw [htd] at this ⊢
+                    cases k' with
+                    | zero => have := budget_pos env value.length; omega
+                    | succ k'' => rw [dec_iface] at this ⊢; exact this
+                  · have e1 : enc env f.td v 1 false false = .ok value := by
+                      rw [hvany] at hwv
+                      obtain ⟨_, n', ifs', fs', rs', _, hfind', _, _, _⟩ := wf_any_inv hwv
+                      rw [htd, hvany] at henc ⊢
+                      rw [enc_any env id nm n' ifs' fs' rs' cv 0 false false hfind'] at henc
+                      rw [enc_any env id nm n' ifs' fs' rs' cv 1 false false hfind']
+                      exact henc
+                    have := rt_val env hE v d f.td value more k' 1 depth hwv hd e1 (by omega)
+                      (by norm_num) (by norm_num) (by omega)
+                    rw [htd] at this ⊢
+                    cases k' with
+                    | zero => have := budget_pos env value.length; omega
+                    | succ k'' => rw [dec_iface] at this ⊢; exact this
                   · rw [enc_primVal hpv] at henc
                     obtain ⟨bs', hbs', _, hdec⟩ := prim_roundtrip f.td _ hprim
                     rw [hbs'] at henc; simp at henc; subst henc
